@@ -2,6 +2,7 @@
 
 use crate::config::LoadBalancerMode;
 use crate::rand::{Choose, Lcg};
+use crate::server::r#static::is_blacklisted;
 use crate::server::server::AppState;
 
 use humphrey::http::headers::HeaderType;
@@ -65,12 +66,7 @@ pub fn proxy_handler(
     }
 
     // Return error 403 if the address was blacklisted
-    if state
-        .config
-        .blacklist
-        .list
-        .contains(&request.address.origin_addr)
-    {
+    if is_blacklisted(&request, &state) {
         state.logger.warn(format!(
             "{}: Blacklisted IP attempted to request {}",
             request.address, request.uri
